@@ -409,6 +409,8 @@ def r9(F, rep):
 
 
 def run(F, rep, tier):
+    from .rules_c03 import written_steps
+    written_steps(F, rep, "C14-R10")   # stamps compared between walkers are on one time axis
     r8(F, rep)
     r9(F, rep)
     r1(F, rep)
